@@ -302,6 +302,14 @@ int reader_init_block_reader(struct reftable_reader *r, struct block_reader *br,
 		return 1;
 	}
 
+	if (block_typ == BLOCK_TYPE_LOG) {
+		/* The header of a log block holds its inflated size. A block
+		   that deflate could not shrink is longer than that on disk:
+		   by the zlib header and trailer and 5 bytes per stored
+		   block. */
+		block_size += 16 + 5 * (block_size / 16384);
+	}
+
 	if (block_size > guess_block_size) {
 		reftable_block_done(&block);
 		err = reader_get_block(r, &block, next_off, block_size);
